@@ -10,6 +10,7 @@ From Crusta Require Import Spec.AF Spec.SemFacts Spec.Theory Sat.Cnf Sat.Prog.
 From Crusta Require Import Model.Encoders Model.Graph Model.Solvers.
 From Crusta Require Import Proofs.ProgLaws Proofs.EncSpec Proofs.EncBase Proofs.EncAll Proofs.SolverBasics.
 From Crusta Require Import Proofs.SolverCc Proofs.SolverThms Proofs.MaxExtCore Proofs.MaxExtPref Proofs.MaxExtIdeal.
+From Crusta Require Proofs.GroundedProofs.
 From Coq Require Import Lia ZifyBool.
 Import ListNotations.
 Open Scope prog_scope.
@@ -780,3 +781,113 @@ Proof.
 Qed.
 
 End IdealComponent.
+
+(* ------------------------------------------------------------------------------------------ *)
+(** * The statements re-exported by Properties/C18log.v *)
+
+(* pairwise different AS SETS, by positions *)
+Definition pairwise_different (l : list (list nat)) : Prop :=
+  forall i j S T, i < j -> nth_error l i = Some S -> nth_error l j = Some T ->
+    ~ (forall a, In a S <-> In a T).
+
+Lemma sepl_pairwise l : sepl l -> pairwise_different l.
+Proof.
+  induction l as [|X r IH]; intros Hs i j S T Hij Hi Hj.
+  - destruct i; discriminate.
+  - destruct Hs as [Hne Hr]. destruct j as [|j]; [lia|]. cbn [nth_error] in Hj. destruct i as [|i].
+    + cbn [nth_error] in Hi. injection Hi as ->. apply (Hne T). exact (nth_error_In r j Hj).
+    + cbn [nth_error] in Hi. apply (IH Hr i j S T); [lia|exact Hi|exact Hj].
+Qed.
+
+(* the facts about the Sat answers of one computer, spelled out *)
+Definition sat_answers_ok (e : enc) (F : af) (n : nat) (new : list (nat * event)) : Prop :=
+  let sets := sat_sets n e new in
+  (forall S, In S sets -> basep (enc_base e) F S) /\
+  pairwise_different sets /\
+  length sets <= length (all_base (enc_base e) F).
+
+Lemma sat_no_twice_ok e F n new : sat_no_twice e F n new -> sat_answers_ok e F n new.
+Proof. intros (H1 & H2 & H3). split; [exact H1|]. split; [exact (sepl_pairwise _ H2)|exact H3]. Qed.
+
+Section Export.
+Variable oracle : nat -> cnf -> list lit -> answer.
+Variable thr : nat.
+Hypothesis Hthr : 1 <= thr.
+Hypothesis Hvalid : valid_oracle oracle.
+Variable e : enc.
+Hypothesis Hpe : pr_enc e.
+
+Lemma compact_gr_least F n : compact_af F n -> gr_least F.
+Proof. intros HF. exact (GroundedProofs.grounded_compact F n HF). Qed.
+
+Theorem log_preferred_se : forall c n, compact_af (c_af c) n -> forall fuel s,
+  match pr_max_in_cc oracle thr fuel e c s with
+  | Done _ t | Abort t | Panic t | OutOfFuel t =>
+      exists new, rlog t = new ++ rlog s /\
+        sat_answers_ok e (c_af c) n new /\ n_unsat new <= length (all_exts PR (c_af c)) + 1
+  end.
+Proof.
+  intros c n HF fuel s.
+  pose proof (pr_max_in_cc_log oracle thr Hthr Hvalid e (c_af c) n HF Hpe
+                (gr_least_start _ (compact_gr_least _ n HF)) c fuel s eq_refl) as H.
+  destruct (pr_max_in_cc oracle thr fuel e c s); destruct H as (new & Hl & H1 & H2);
+    exists new; (split; [exact Hl|split; [exact (sat_no_twice_ok _ _ _ _ H1)|exact H2]]).
+Qed.
+
+Theorem log_preferred_ds : forall c n, compact_af (c_af c) n -> forall fuel al shortcut s,
+  match pr_ds_in_cc oracle thr fuel e c al shortcut s with
+  | Done _ t | Abort t | Panic t | OutOfFuel t =>
+      exists new, rlog t = new ++ rlog s /\
+        sat_answers_ok e (c_af c) n new /\ n_unsat new <= length (all_exts PR (c_af c)) + 1
+  end.
+Proof.
+  intros c n HF fuel al sc s.
+  pose proof (pr_ds_in_cc_log oracle thr Hthr Hvalid e (c_af c) n HF Hpe
+                (gr_least_start _ (compact_gr_least _ n HF)) c fuel al sc s eq_refl) as H.
+  destruct (pr_ds_in_cc oracle thr fuel e c al sc s); destruct H as (new & Hl & H1 & H2);
+    exists new; (split; [exact Hl|split; [exact (sat_no_twice_ok _ _ _ _ H1)|exact H2]]).
+Qed.
+
+Lemma id2_ok F n s t : since s (ideal_two_phases e F n) t ->
+  exists new1 new2, rlog t = new2 ++ new1 ++ rlog s /\
+    (sat_answers_ok e F n new1 /\ n_unsat new1 <= length (all_exts PR F) + 1) /\
+    sat_answers_ok e F n new2.
+Proof.
+  intros (new & Hl & new1 & new2 & -> & [H1 H2] & H3). exists new1, new2.
+  split; [rewrite Hl; symmetry; apply app_assoc|].
+  split; [split; [exact (sat_no_twice_ok _ _ _ _ H1)|exact H2]|exact (sat_no_twice_ok _ _ _ _ H3)].
+Qed.
+
+Theorem log_ideal_se : forall F n, compact_af F n -> forall fuel s,
+  match id_ext_for_cc oracle thr fuel e F s with
+  | Done _ t | Abort t | Panic t | OutOfFuel t =>
+      exists new1 new2, rlog t = new2 ++ new1 ++ rlog s /\
+        (sat_answers_ok e F n new1 /\ n_unsat new1 <= length (all_exts PR F) + 1) /\
+        sat_answers_ok e F n new2
+  end.
+Proof.
+  intros F n HF fuel s.
+  pose proof (id_ext_for_cc_log oracle thr Hthr Hvalid e F n HF Hpe (compact_gr_least F n HF) fuel s) as H.
+  destruct (id_ext_for_cc oracle thr fuel e F s); exact (id2_ok F n s _ H).
+Qed.
+
+Theorem log_ideal_cred : forall F n, compact_af F n -> forall fuel la s,
+  match id_cred_for_cc oracle thr fuel e F la s with
+  | Done _ t | Abort t | Panic t | OutOfFuel t =>
+      exists new1 new2, rlog t = new2 ++ new1 ++ rlog s /\
+        (sat_answers_ok e F n new1 /\ n_unsat new1 <= length (all_exts PR F) + 1) /\
+        sat_answers_ok e F n new2
+  end.
+Proof.
+  intros F n HF fuel la s.
+  pose proof (id_cred_for_cc_log oracle thr Hthr Hvalid e F n HF Hpe (compact_gr_least F n HF) fuel la s) as H.
+  destruct (id_cred_for_cc oracle thr fuel e F la s); exact (id2_ok F n s _ H).
+Qed.
+
+End Export.
+
+Print Assumptions compute_next_step.
+Print Assumptions log_preferred_se.
+Print Assumptions log_preferred_ds.
+Print Assumptions log_ideal_se.
+Print Assumptions log_ideal_cred.
